@@ -12,7 +12,7 @@ CONSTANTS
   GenDepth = 0
   Srvs = {1, 2}
   Ots <- OtsTwo
-  Coes <- CoesTwo
+  Coes <- CoesOne
   SharedContextTable = TRUE
   ExpireSessions = FALSE
   RandArgs = FALSE
